@@ -12,7 +12,8 @@ extern "C" int LLVMFuzzerTestOneInput(const uint8_t *data, size_t size) {
     FuzzedDataProvider fdp(data, size);
     Config cfg;
     uint8_t flags = fdp.ConsumeIntegral<uint8_t>();
-    cfg.serial = flags & 1; cfg.mem16 = flags & 2; cfg.chunk_src = flags & 4;
+    cfg.serial = flags & 1; cfg.mem16 = flags & 2; cfg.chunk_src = (flags & 4) ? 1 : 0;
+    if (flags & 128) cfg.chunk_src = fdp.ConsumeIntegralInRange<int>(2, 40);
     cfg.block_extra = fdp.ConsumeIntegralInRange<size_t>(0, 299);
     cfg.failmask = (flags & 8) ? fdp.ConsumeIntegral<uint8_t>() : 0;
     Bytes stream;
